@@ -55,7 +55,7 @@ def size_vectors(n, tier):
 class ComputeRun:
     """One symbolic execution of the real _compute on a rank-sorted game."""
 
-    def __init__(self, model, sizes, ranks, gamma_mode="default", tm_stub=True, order=None, identical=False, player_order=None):
+    def __init__(self, model, sizes, ranks, gamma_mode="default", tm_stub=True, order=None, identical=False, player_order=None, safety=False):
         """sizes: team sizes by *original* team index (symbols mu_i_j / sg_i_j);
         order: the presentation handed to _compute lists original teams in this
         order (default 0..n-1); ranks: sorted dense ranks of the presentation;
@@ -66,7 +66,7 @@ class ComputeRun:
         S = self.S = extract.Scratch(model)
         self.tm = game.stub_tm_real(S)
         game.stub_phi_real(S)
-        self.ctx = Ctx("R")
+        self.ctx = Ctx("R", safety=safety)
         self.gamma_spec = None
         box = {}
 
